@@ -33,6 +33,8 @@ type liveDelegate struct {
 	failOn    map[int]bool
 	failFrom  int // > 0: every pass from this one on fails to start (e.g. the target file was removed)
 	perReqDelay time.Duration
+	errEvery  int // > 0: an error request (a target that could not be resolved) precedes every errEvery-th request of a pass
+	errsSent  int32
 	mu        sync.Mutex
 	callT     []time.Time // taken on entry (>= true call time)
 	closeT    map[int]time.Time // taken just before close (<= true close time)
@@ -62,7 +64,17 @@ func (d *liveDelegate) GenerateRequests(ctx context.Context, r *scan.Range) (<-c
 			d.mu.Unlock()
 			close(out)
 		}()
+		k := 0
 		for req := range in {
+			k++
+			if d.errEvery > 0 && k%d.errEvery == 0 {
+				atomic.AddInt32(&d.errsSent, 1)
+				select {
+				case out <- &scan.Request{Err: errors.New("scripted: target could not be resolved"), Meta: map[string]interface{}{"pass": pass}}:
+				case <-ctx.Done():
+					return
+				}
+			}
 			if req.Meta == nil {
 				req.Meta = map[string]interface{}{}
 			}
@@ -90,6 +102,7 @@ type c19case struct {
 	MinPasses   int    `json:"passes_to_observe"`
 	FailPass    int    `json:"delegate_fails_on_pass"` // 0 none
 	FailForever bool   `json:"and_on_every_later_pass,omitempty"`
+	ErrEvery    int    `json:"error_request_before_every_nth,omitempty"`
 	RandSeed    int64  `json:"rand_seed"`
 }
 
@@ -120,7 +133,7 @@ func c19live(run *vlab.Run, c c19case) {
 	if perPass == 0 {
 		return // everything excluded: nothing to observe
 	}
-	d := &liveDelegate{inner: inner, failOn: map[int]bool{}, closeT: map[int]time.Time{}, perReqDelay: time.Duration(c.PerReqUs) * time.Microsecond}
+	d := &liveDelegate{inner: inner, failOn: map[int]bool{}, closeT: map[int]time.Time{}, perReqDelay: time.Duration(c.PerReqUs) * time.Microsecond, errEvery: c.ErrEvery}
 	if c.FailPass > 0 {
 		d.failOn[c.FailPass] = true
 		if c.FailForever {
@@ -132,6 +145,7 @@ func c19live(run *vlab.Run, c c19case) {
 	rng := &scan.Range{DstSubnet: dst}
 	passes := map[int]map[uint64]int32{}
 	received := 0
+	errReqs := 0
 	closed := false
 	var cancelT time.Time
 	afterCancel := 0
@@ -158,6 +172,10 @@ func c19live(run *vlab.Run, c c19case) {
 				}
 				if !cancelT.IsZero() {
 					afterCancel++
+					continue
+				}
+				if req.Err != nil && c.ErrEvery > 0 {
+					errReqs++ // error requests are forwarded like any other; the pass goes on
 					continue
 				}
 				if req.Err != nil {
@@ -290,6 +308,13 @@ func c19live(run *vlab.Run, c c19case) {
 	if c.FailPass > 0 {
 		run.Count("failed_pass_runs", 1)
 	}
+	if c.ErrEvery > 0 {
+		run.Count("runs_with_error_requests_inside_passes", 1)
+		run.Count("error_requests_inside_passes", int64(errReqs))
+		if sent := int(atomic.LoadInt32(&d.errsSent)); errReqs > sent {
+			run.Violation("error-request-repeated", fmt.Sprintf("%d error requests came out of live mode, the passes contained %d: %+v", errReqs, sent, c), c)
+		}
+	}
 }
 
 func cap1(n int) int {
@@ -340,6 +365,12 @@ func TestVerifC19Live(t *testing.T) {
 			c.MinPasses = 3
 		}
 		cases = append(cases, c)
+	}
+	// ---- passes that contain error requests (a target of the pass could not be resolved): the pass goes on
+	for _, ee := range []int{1, 2, 3, 5, 8} {
+		for _, sn := range []string{"10.5.0.0/28", "10.5.1.3/29"} {
+			cases = append(cases, c19case{Subnet: sn, IntervalMs: 5, CancelAfter: -1, MinPasses: 3, ErrEvery: ee, RandSeed: int64(ee)})
+		}
 	}
 	// ---- a pass that fails to start
 	for _, fp := range []int{1, 2, 3} {
